@@ -1,6 +1,7 @@
 (** Algebra over Q for the GNN model: forward formula, equivariance, sampler, predictions.
     Everything here is closed under the global context. *)
 From SKN Require Import Base.Util Model.Gnn.
+Set Warnings "-notation-overridden,-ambiguous-paths".
 From Coq Require Import QArith Qminmax Lqa Psatz Setoid Morphisms.
 
 Local Open Scope Q_scope.
